@@ -74,7 +74,14 @@ func buildWorker(race bool) (string, error) {
 	args = append(args, "-o", out, "./worker")
 	cmd := exec.Command("go", args...)
 	cmd.Dir = verifDir
-	cmd.Env = append(os.Environ(), "GOFLAGS=-mod=mod", "GOPROXY=off", "GOSUMDB=off", "GOTOOLCHAIN=local")
+	// norandomizedheapbase64: this Go release places the heap at a random base, so the TEXT of a pointer
+	// (%p, %v of a struct with pointer fields, jet's dump()) has a different number of digits from
+	// process to process. Outputs are compared after normalising addresses, but jet's printer writes
+	// long strings in 4096-byte pieces: with addresses of another length the pieces - and with them
+	// the number of Write calls and what "the k-th Write fails" cuts off - fall elsewhere, and a run
+	// stops being a function of its tape across processes. With the classic fixed heap base the
+	// addresses have one length.
+	cmd.Env = append(os.Environ(), "GOFLAGS=-mod=mod", "GOPROXY=off", "GOSUMDB=off", "GOTOOLCHAIN=local", "GOEXPERIMENT=norandomizedheapbase64")
 	b, err := cmd.CombinedOutput()
 	if err != nil {
 		return "", fmt.Errorf("building %s failed: %v\n%s", name, err, b)
